@@ -24,7 +24,7 @@ META = {
     "encoded": ["csr.event.EventMonitor.__init__", "csr.event.EventMonitor.elaborate", "event.Monitor.elaborate",
                 "csr.bus.Multiplexer.elaborate", "csr.reg.Register.elaborate", "csr.bus.Decoder.add/elaborate",
                 "amaranth.lib.wiring.connect (attachment)"],
-    "also": '1-3 bit wide buses with 3-7 events (many-chunk, padded, non-power-of-two registers) incl. a reset-rooted write-enable / read-enable / read-pending window; second pending read issued in the clear cycle; register capacity obligation',
+    "also": 'read data zero unless the monitor was read in the previous cycle (what sharing a decoder with other subordinates needs); 1-3 bit wide buses with 3-7 events (many-chunk, padded, non-power-of-two registers) incl. a reset-rooted write-enable / read-enable / read-pending window; second pending read issued in the clear cycle; register capacity obligation',
     "bounds": "0,1,3,8,9,17 events at data width 8, 0,5,16,17 at 16 (thorough adds 2,7,16,24 / 31,32,33); alignment "
               "0-2; seeded trigger-mode mixes; three attachments; windows: enable write + read-back, enable write + "
               "pending read + line, pending read / write-one-to-clear / read with source inputs free in every cycle "
@@ -246,12 +246,18 @@ def queries(h, cfg):
             bad.append(z3.Extract(R.size() - 1, n, R) != 0)
         return a, z3.Or(*bad) if bad else z3.BoolVal(False)
     k_e = ce + 1 + ce + cp + 1
-    qs = [Q("pending-read-in-the-clear-cycle", k_c - 1, w1c_nogap, max_prefix=2),
-          Q("enable-write-reads-back", k_a, enable_rw, max_prefix=2),
-          Q("line-is-enable-and-pending-snapshot", k_b, line, max_prefix=2,
+    # rooting a free-state counterexample at reset may need an enable write and a trigger first
+    PFX = ce + 3
+    qs = [Q("pending-read-in-the-clear-cycle", k_c - 1, w1c_nogap, max_prefix=PFX),
+          Q("enable-write-reads-back", k_a, enable_rw, max_prefix=PFX),
+          Q("line-is-enable-and-pending-snapshot", k_b, line, max_prefix=PFX,
             twin=(lambda h, fr: (line(h, fr)[0], is1(fr[1 + ce + 1].sig(h.mon.src.i)))) if n else None),
-          Q("pending-write-one-to-clear", k_c, w1c, twin=w1c_twin, max_prefix=2),
-          Q("reset-values", k_d, reset_vals, init="reset")]
+          Q("pending-write-one-to-clear", k_c, w1c, twin=w1c_twin, max_prefix=PFX),
+          Q("reset-values", k_d, reset_vals, init="reset"),
+          # what lets the monitor share a decoder with other subordinates (the decoder ORs their read data): nothing
+          # on r_data unless the monitor itself was read in the previous cycle
+          Q("read-data-zero-unless-just-read", 2, lambda h, fr: ([fr[0].sig(h.bus.r_stb) == 0], fr[1].sig(h.bus.r_data) != 0),
+            max_prefix=4)]
     if n <= 9:
         # (reset-rooted windows over many wide masks are out of the solver's reach: > 150 s for 17 events / 3 chunks;
         #  long multi-chunk registers are obtained cheaply with 1-3 bit wide buses instead)
